@@ -4,7 +4,7 @@
    fix: commits for F24 and F14).  Specification of histories: BitmapSpec.v.
    bm_to_array s (= the sequence produced by the iterator loop, see
    C08_bitmap_iteration) is the abstraction: the ascending list of members. *)
-Require Import VV.Base VV.Bitmap VV.BitmapSpec VV.BitmapLemmas VV.BitmapProofs VV.BitmapProofsSer VV.BitmapProofsHist.
+Require Import VV.Base VV.Bitmap VV.BitmapSpec VV.BitmapLemmas VV.BitmapProofs VV.BitmapProofsSer VV.BitmapProofsHist VV.BitmapProofsIter.
 From Coq Require Import Sorted.
 Local Open Scope N_scope.
 
@@ -109,6 +109,14 @@ Theorem C08_bitmap_operands_unchanged : forall pool o j, op_target o <> Some j -
   nth j (fst (bm_step pool o)) bm_create = nth j pool bm_create.
 Proof. exact operands_unchanged. Qed.
 Print Assumptions C08_bitmap_operands_unchanged.
+
+(* the iterator: calling IteratorNext until it returns false (here: `fuel` calls,
+   more than the cardinality) yields currentValue = the members in ascending
+   order, each once, for every container *)
+Theorem C08_bitmap_iteration : forall s fuel, bm_Inv s -> (length (bm_to_array s) < fuel)%nat ->
+  bm_iter_run fuel s bm_iter_init = bm_to_array s.
+Proof. exact iter_run_all. Qed.
+Print Assumptions C08_bitmap_iteration.
 
 (* hypotheses are satisfiable by non-trivial inputs; F24's witness now keeps 7 *)
 Example C08_bitmap_f24_witness :
